@@ -10,7 +10,24 @@ import rx
 import rx.operators as ops
 import rxsci.io.file as file
 import rxsci.framing.line as line
-from rxsci.data.codec import encode as _encode
+import codecs
+
+
+def _encode_stream(encoding):
+    ''' Encodes the lines as one stream: a single byte-order mark is written.
+
+    Encoding errors are signalled with on_error.
+    '''
+    def _encode(source):
+        def factory(scheduler):
+            encoder = codecs.getincrementalencoder(encoding)()
+            return rx.concat(
+                source.pipe(ops.map(encoder.encode)),
+                rx.defer(lambda _: rx.just(encoder.encode('', final=True))),
+            )
+        return rx.defer(factory)
+
+    return _encode
 
 
 def parse_iso_date(i):
@@ -358,7 +375,7 @@ def dump_to_file(
                 separator=separator, escapechar=escapechar,
                 newline=newline
             ),
-            _encode(encoding) if encoding is not None else ops.map(lambda i: i),
+            _encode_stream(encoding) if encoding is not None else ops.map(lambda i: i),
             file.write(
                 file=filename,
                 mode=mode,
